@@ -50,6 +50,15 @@ CHECKS = {
     "C20": dict(tech="link-time wrapped descriptor ledger (close/pipe/dup/epoll_create1/timerfd_create/signalfd/inotify_init1/eventfd/pidfd_open of the library objects) + /proc/self/fd diff at quiescent points, judged by an offline oracle; sources/hostile/registry/mixed profiles with auto-close, dup and one-shot mixes; plain build",
                 text="Every close() the library issues is classified against the ledger (own and open / user's with a released auto-close registration, once) and at quiescence nothing the library opened may remain while every auto-close descriptor whose source is gone must have been closed.",
                 ref="C20"),
+    "C13": dict(tech="offline trace oracle with an exact priority/batch-size model on serialised scenarios (handler invocation boundaries and contents compared batch by batch) + conservation on all scenarios; batching profile (sizes 0,1,2,3,7,64, LOW/NORMAL/HIGH subscriptions, descriptor source, pause/resume, stop/start probes, set-then-clear timeouts); plain build, both modes",
+                text="Production is serialised so that arrival order and the settings in force at each arrival are unambiguous; the sequence of handler invocations and the events each one carries must equal the model's; one extra hand-over at loop stop is tolerated. Timeout scenarios are judged for conservation and for immediate delivery once neither size nor timeout is configured.",
+                ref="C13"),
+    "C16": dict(tech="offline trace oracle: FIFO model of stashed event tokens per module, stash admission rules, unstash(n) return value and the single directly nested handler invocation with exactly the oldest events; stash_become profile; plain build, both modes",
+                text="Generated stash/unstash(n) sequences (n from 1 to beyond the stash size and SIZE_MAX, from handlers and from outside, interleaved with deliveries, handler changes and stop/start) are judged call by call against a FIFO model using unique event tokens.",
+                ref="C16/C17"),
+    "C17": dict(tech="offline trace oracle: handler-stack model per module checked at every handler invocation (4 distinguishable handler functions), become/unbecome admission and return codes, stack reset at stop; stash_become profile; plain build, both modes",
+                text="Every handler invocation, including stash replays, is attributed to the handler function that received it and compared with the top of the modelled stack; become/unbecome return codes and the reset at stop are judged call by call.",
+                ref="C16/C17"),
 }
 
 NOT_YET = "check not built yet in this round (work in progress, see DESIGN.md §3 for the planned monitor)"
